@@ -96,6 +96,65 @@ def LeavesOnly (n : Nat) (L : Locals) (p : PlaceId) (t : Ty) : Prop :=
 def leafWires (L : Locals) (p : PlaceId) (t : Ty) : List Wire :=
   (places p t).filterMap L
 
+/-! ## reference store: what a place holds after a sequence of assignments and (moving) reads -/
+
+/-- partial values: `hole` = never assigned, or moved out by a read -/
+inductive PVal where
+  | hole
+  | val (v : Val)
+  | tup (ps : List PVal)
+  deriving Repr, Inhabited
+
+mutual
+/-- the value of a fully defined partial value -/
+def PVal.total : PVal → Option Val
+  | .hole => none
+  | .val v => some v
+  | .tup ps => match PVal.totals ps with
+    | some vs => some (.tup vs)
+    | none => none
+def PVal.totals : List PVal → Option (List Val)
+  | [] => some []
+  | p :: ps => match p.total, PVal.totals ps with
+    | some v, some vs => some (v :: vs)
+    | _, _ => none
+end
+
+mutual
+/-- store a value of the shape of `t`: leaves hold their component -/
+def embed : Ty → Val → PVal
+  | .leaf _ _, v => .val v
+  | .node _ cs, .tup vs => .tup (embeds cs vs)
+  | .node _ _, .atom _ => .hole
+def embeds : List Ty → List Val → List PVal
+  | t :: ts, v :: vs => embed t v :: embeds ts vs
+  | _, _ => []
+end
+
+mutual
+/-- a (successful) read moves the non-copyable leaves out -/
+def moved : Ty → PVal → PVal
+  | .leaf c _, p => if c then p else .hole
+  | .node _ cs, .tup ps => .tup (moveds cs ps)
+  | .node _ _, p => p
+def moveds : List Ty → List PVal → List PVal
+  | t :: ts, p :: ps => moved t p :: moveds ts ps
+  | _, ps => ps
+end
+
+/-- replace the component at selector path `s` (outermost first) using `f` -/
+def PVal.modify (f : PVal → PVal) : PVal → List Nat → PVal
+  | p, [] => f p
+  | .tup ps, i :: s => .tup (ps.modify i (fun q => PVal.modify f q s))
+  | p, _ :: _ => p
+
+def PVal.at : PVal → List Nat → Option PVal
+  | p, [] => some p
+  | .tup ps, i :: s => match ps[i]? with
+    | some q => q.at s
+    | none => none
+  | _, _ :: _ => none
+
 /-- helper for concrete examples: the call succeeded and its result satisfies `f` -/
 def okAnd {ε α : Type} (r : Except ε α) (f : α → Bool) : Bool :=
   match r with
